@@ -498,6 +498,13 @@ public:
       const auto colonPos = line.find(':');
       if (colonPos != std::string::npos)
       {
+        // RFC 9112 §5.1: no whitespace is allowed between the field name and the
+        // colon, and a server MUST answer 400 to a request that has some - reading
+        // "Content-Length : 5" as Content-Length is a request-smuggling vector.
+        if (colonPos > 0 && (line[colonPos - 1] == ' ' || line[colonPos - 1] == '\t'))
+        {
+          throw HttpRequestError(400, "Whitespace between header field name and colon");
+        }
         std::string name = line.substr(0, colonPos);
         name.erase(0, name.find_first_not_of(" \t"));
         name.erase(name.find_last_not_of(" \t") + 1);
